@@ -71,7 +71,7 @@ func (sh *shadow) noOperatorMeansNoChange(region *core.RegionInfo) bool {
 		return false
 	}
 	for _, sd := range sh.w.Stores {
-		if sd.State != stUp || sd.Engine != "" {
+		if !sh.w.plainUp(&sd) {
 			return false
 		}
 	}
@@ -356,6 +356,7 @@ func scatterWorld(s *stats, rng *rand.Rand, nRegions, rounds int) error {
 		return nil
 	}
 	s.count("scatter_worlds", 1)
+	countProps(s, w)
 	s.count("scatter_worlds_rules_"+w.Rules, 1)
 	if w.safeguardVacuous() {
 		s.count("scatter_worlds_without_labels_and_rules", 1)
